@@ -419,7 +419,8 @@ def step (s : State κ) : Action κ → Option (State κ × List (Ev κ))
     | none => none
     | some cl =>
       if cl.pc = .lagging then
-        some ({ s with callers := s.callers.set c { cl with pc := .abandoned } }, [.exec c (cl.got.map (idOf s)) a])
+        some ({ s with callers := s.callers.set c { cl with pc := .abandoned, banned := isRemoved s } },
+              [.exec c (cl.got.map (idOf s)) a])
       else none
 
 /-- run a schedule, collecting the observable trace -/
